@@ -31,7 +31,7 @@ KV_TEXT = {
     "ref=hex": "ref = 0x7", "ref=suffixed": "ref = 7u32", "strref": '{k} = "[ref: 5] v"',
 }
 # shapes that do not compile against the log crate as available offline (feature kv only) or are not valid Rust
-KV_NOCOMPILE = {"err", "sval", "serde", "ref=over", "ref=07", "ref=neg"}
+KV_NOCOMPILE = {"err", "sval", "serde", "ref=over", "ref=07", "ref=neg", "bytestr"}      # b"x": [u8; 1] is not a log value
 
 MSG_TEXT = {
     "plain": "s{u} hello", "leadspace": "  s{u} padded", "slashes": "// s{u} not a comment",
